@@ -233,12 +233,19 @@ pub fn ctx_echo<Q: CustomQuery>(deps: Deps<Q>, env: &Env, info: Option<&MessageI
         .query_balance(env.contract.address.as_str(), "ucoin")
         .map(|c| c.amount.to_string())
         .unwrap_or_else(|e| format!("ERR:{e}"));
+    // (a second probe whose request carries a word the custom-type plumbing also uses)
+    let bal2 = deps
+        .querier
+        .query_balance(env.contract.address.as_str(), "custom")
+        .map(|c| c.amount.to_string())
+        .unwrap_or_else(|e| format!("ERR:{e}"));
     let mut v = json!({
         "block": j(&env.block),
         "tx": j(&env.transaction),
         "contract": env.contract.address.as_str(),
         "n": read_n(deps.storage),
         "bal": bal,
+        "bal2": bal2,
         "api": deps.api.addr_validate(env.contract.address.as_str()).is_ok(),
     });
     if let Some(info) = info {
